@@ -45,7 +45,9 @@ JOBS = [
     td('skip', 'h_td_skip', 'thrift_skip', SKIP_CALLEES, min_loop_obligations=3, est_s=60, replayer=FZ_SKIP),
     # recursion depth: one thrift_skip frame per struct nesting level at most (ghost cqv_skip_depth)
     dict(td('skip_depth', 'h_td_skip', 'thrift_skip', SKIP_CALLEES, min_loop_obligations=3, est_s=60,
-            defines=['CQV_SKIP_DEPTH=1']), name='c04_thrift_skip_depth', props=['C04']),
+            defines=['CQV_SKIP_DEPTH=1'],
+            replayer=dict(kind='direct', harness='replay/direct/thrift_skip_depth.c', vars={},
+                          sources=['src/thrift/thrift_decode.c', 'src/core/buffer.c'])), name='c04_thrift_skip_depth', props=['C04']),
     # exact consumption per wire type (fixed-width scalars, list/set of fixed-width elements)
     dict(td('skip_exact', 'h_td_skip', 'thrift_skip', SKIP_CALLEES, min_loop_obligations=3, est_s=60,
             defines=['CQV_SKIP_EXACT=1'], replayer=FZ_SKIP), name='c13_thrift_skip_exact', props=['C13']),
@@ -79,11 +81,16 @@ JOBS += [
     te('bool', 'h13_bool', ['thrift_write_bool', 'thrift_read_bool']),
     te('binary', 'h13_binary', ['thrift_write_binary', 'thrift_read_binary'], level='bounded',
        bound='payload length <= 16 bytes (all contents); all lengths are covered by c13_thrift_binary_len'),
-    te('binary_len', 'h13_binary_len', ['thrift_write_binary', 'thrift_read_binary']),
+    te('binary_len', 'h13_binary_len', ['thrift_write_binary', 'thrift_read_binary'], tier='thorough', timeout=1200, est_s=400),
     te('uuid', 'h13_uuid', ['thrift_write_uuid', 'thrift_read_uuid']),
     te('field_header_roundtrip', 'h13_field_header_roundtrip',
        ['thrift_write_field_header', 'thrift_read_field_begin', 'thrift_read_bool']),
-    te('field_header_form', 'h13_field_header_form', ['thrift_write_field_header']),
+    te('field_header_form', 'h13_field_header_form', ['thrift_write_field_header'],
+       replayer=dict(kind='direct', harness='replay/direct/thrift_field_header.c',
+                     sources=['src/thrift/thrift_encode.c', 'src/core/buffer.c'],
+                     vars={'nl': 'nl', 'last': 'last', 'fid': 'fid', 'type': 'type'})),
+    te('field_header_form_nowrap', 'h13_field_header_form', ['thrift_write_field_header'],
+       defines=['CQV_MEMCPY_EXACT=16', 'CQV_NOWRAP=1']),
     te('struct', 'h13_struct', ['thrift_write_struct_begin', 'thrift_write_struct_end', 'thrift_write_field_stop',
                                 'thrift_read_struct_begin', 'thrift_read_struct_end', 'thrift_read_field_begin']),
     te('list_begin', 'h13_list_begin', ['thrift_write_list_begin', 'thrift_read_list_begin']),
